@@ -4,6 +4,10 @@ package c11
 import (
 	"bytes"
 	"context"
+	"crypto"
+	_ "crypto/md5"
+	_ "crypto/sha1"
+	_ "crypto/sha256"
 	"encoding/binary"
 	"encoding/json"
 	"fmt"
@@ -18,6 +22,9 @@ import (
 
 	"github.com/wollac/iota-crypto-demo/pkg/pow"
 	"pgregory.net/rapid"
+
+	_ "golang.org/x/crypto/blake2s"
+	_ "golang.org/x/crypto/ripemd160"
 
 	"verifharness/h"
 	"verifharness/ref/curl"
@@ -99,6 +106,9 @@ type mineCase struct {
 	Workers int    `json:"workers"`
 	Target  string `json:"target"` // float64 as hex bits (exact)
 	Class   string `json:"class"`
+	// Hash: crypto.Hash to install in the package-level pow.Hash for this call (0 = the default BLAKE2b-256);
+	// Mine and Score must agree whatever digest function is configured
+	Hash uint `json:"hash,omitempty"`
 }
 
 func (c mineCase) target() float64 {
@@ -120,6 +130,9 @@ func judge(c mineCase, nonce uint64) error {
 	msg := msgOf(c.Data, nonce)
 	target := c.target()
 	got := pow.Score(msg)
+	if !(got >= target) && c.Hash != 0 {
+		return fmt.Errorf("with pow.Hash = %v: Mine(data=%x, target=%v [%s], workers=%d) returned nonce %d with Score %v < target", crypto.Hash(c.Hash), []byte(c.Data), target, c.Class, c.Workers, nonce, got)
+	}
 	if !(got >= target) {
 		exact, z := ref.ScoreV1(msg)
 		f, _ := exact.Float64()
@@ -140,6 +153,15 @@ func checkMine(c mineCase) (h.Info, error) {
 		return h.Info{}, fmt.Errorf("PRECONDITION: target too expensive for the harness")
 	}
 	info := h.Info{Class: "mine/" + c.Class, NT: c.Class != "random"}
+	if c.Hash != 0 {
+		if !crypto.Hash(c.Hash).Available() || crypto.Hash(c.Hash).Size() > 32 {
+			return h.Info{}, fmt.Errorf("PRECONDITION: hash %d", c.Hash)
+		}
+		old := pow.Hash
+		pow.Hash = crypto.Hash(c.Hash)
+		defer func() { pow.Hash = old }()
+		info.Class = "mine-other-digest/" + c.Class
+	}
 	ctx, cancel := context.WithTimeout(context.Background(), 60*time.Second)
 	defer cancel()
 	data := append([]byte{}, c.Data...)
@@ -397,6 +419,9 @@ func genMine(t *rapid.T) mineCase {
 			c.Data[i] = fill + byte(i*7)
 		}
 	}
+	if h.Pick(t, "hash", 6, 1) == 1 {
+		c.Hash = uint(h.OneOf(t, "hashid", crypto.SHA1, crypto.MD5, crypto.SHA224, crypto.RIPEMD160, crypto.SHA256, crypto.BLAKE2s_256))
+	}
 	ell := len(c.Data) + 8
 	k := rapid.IntRange(0, 7).Draw(t, "k")
 	if h.Pick(t, "deep", 6, 1) == 1 {
@@ -431,8 +456,8 @@ func TestMine(t *testing.T) {
 	h.Run(t, h.Sub[mineCase]{
 		Prop: "C11", Name: "mine", N: 500,
 		Gen: genMine, Check: checkMine,
-		Require: []string{"mine/at-boundary", "mine/one-ulp-above", "mine/one-ulp-below", "mine/float-quotient+-2ulp", "mine/random"},
-		Rule:    "data of 0..64 bytes x workers {1,2,3,4,8,16} x targets exactly at fl(3^k/len), one ulp above and below (k = 0..8), the float quotient pow(3,k)/len +-2 ulp, and random targets; every nonce returned without error must satisfy Score(data||LE64(nonce)) >= target; non-trivial = boundary target; distinct by case",
+		Require: []string{"mine/at-boundary", "mine/one-ulp-above", "mine/one-ulp-below", "mine/float-quotient+-2ulp", "mine/random", "mine-other-digest/at-boundary"},
+		Rule:    "data of 0..64 bytes x workers {1,2,3,4,8,16} x targets exactly at fl(3^k/len), one ulp above and below (k = 0..8), the float quotient pow(3,k)/len +-2 ulp, and random targets, one case in seven with another digest function installed in pow.Hash (SHA-1, MD5, SHA-224, RIPEMD-160, SHA-256, BLAKE2s); every nonce returned without error must satisfy Score(data||LE64(nonce)) >= target; non-trivial = boundary target; distinct by case",
 	})
 }
 
